@@ -486,7 +486,8 @@ impl<'a> Model<'a> {
 
     /// First quiescent barrier after `seq`.
     pub fn barrier_after(&self, seq: u64) -> Option<&BarrierInfo> {
-        self.barriers.iter().find(|b| b.seq > seq && b.quiescent)
+        let i = self.barriers.partition_point(|b| b.seq <= seq);
+        self.barriers[i..].iter().find(|b| b.quiescent)
     }
 
     pub fn call_of_pull(&self, d: &Delivery) -> Option<&Call> {
